@@ -29,6 +29,10 @@
                                                                              generator line pinned by C17_vi_bindings
   8.  quantifier b >= 0, t >= 1, n >= 1 (n = 0 included), all seeds / chains  all theorems are for arbitrary naturals / Ints; refusals outside the
                                                                              domain: C17_rng_refusals; thin = 0: C17_thin_zero_remark
+  9.  set_rng exactly once, after reset, before the first step, for every initial model state  C17_set_rng_once
+  10. seed 0 is a seed like any other ....................................... C17_seed_zero
+  Regression (not a clause): S7-C17 set_rng only if the model has no generator  C17_S7_keep_rng_counterexample
+  Regression (not a clause): S5-C17 `if not seed: seed = None` ................ C17_S5_seed_falsy_counterexample
   harness-only: object identity of the generator / model reuse across calls in one process (no functional model of object state).
 -/
 import Batchie.Lemmas.SamplingSchedule
@@ -200,6 +204,50 @@ theorem C17_rng_refusals (seed nChains i : Int) :
     have h3 : (List.range nChains.toNat)[i.toNat]? = none :=
       List.getElem?_eq_none (by simp; omega)
     simp [h1, h2, h3]
+
+/-! ### `set_rng` is unconditional; seed 0 is a seed (seeded changes S7-C17, S5-C17) -/
+
+/-- **`set_rng` exactly once, after the reset and before the first step, for EVERY initial model state** (S7-C17, positive
+    half).  The generated trace does not depend on any model state at all: for all `n`, `b`, `t ≥ 1` it starts `reset, set_rng`,
+    contains `set_rng` exactly once and nothing but steps/records afterwards; and whatever generator the model held before
+    (`held`, present or not) it steps with the one handed over. -/
+theorem C17_set_rng_once (n b t : Nat) (ht : 1 ≤ t) :
+    (run (n : Int) (b : Int) (t : Int)).out.take 2 = [2, 3] ∧
+    (run (n : Int) (b : Int) (t : Int)).out.count 3 = 1 ∧
+    (∀ e ∈ (run (n : Int) (b : Int) (t : Int)).out.drop 2, e = 0 ∨ e = 1) ∧
+    (∀ {γ : Type} (held : Option γ) (handed : γ), rngInEffect held handed = handed) := by
+  obtain ⟨⟨rest, hout, hrest⟩, _, _⟩ := C17_counts n b t ht
+  refine ⟨by rw [hout]; rfl, ?_, by rw [hout]; exact hrest, fun _ _ => rfl⟩
+  rw [hout]
+  have h3 : rest.count (3 : Int) = 0 := by
+    rw [List.count_eq_zero]
+    intro h
+    rcases hrest 3 h with h' | h' <;> cases h'
+  simp [h3]
+
+/-- **Regression (S7-C17, not a clause):** with `set_rng` only when the model has no generator, a model that already holds one
+    is never handed this call's generator (no `set_rng` event in its trace) and steps with the old one -- the stream is then
+    not a function of (seed, n_chains, chain_index): two models holding different generators draw differently for the same triple,
+    while the real dataflow gives both the generator handed over. -/
+theorem C17_S7_keep_rng_counterexample :
+    (traceKeepRng true 1 0 1).count 3 = 0 ∧ traceKeepRng false 1 0 1 = (run 1 0 1).out ∧
+    rngInEffectKeep (some (123 : Nat)) 7 = 123 ∧ rngInEffectKeep (some (123 : Nat)) 7 ≠ rngInEffectKeep (some 456) 7 ∧
+    rngInEffect (some (123 : Nat)) 7 = rngInEffect (some 456) 7 := by
+  decide
+
+/-- **Seed 0 is a seed like any other** (S5-C17, positive half): chain `i` of seed 0 gets entropy 0 and spawn key `[i]`. -/
+theorem C17_seed_zero {γ : Type} (mk : Int → List Nat → γ) (nChains i : Int) (hi : 0 ≤ i) (hin : i < nChains) :
+    chainRng mk 0 nChains i = .ok (mk 0 [i.toNat]) :=
+  (C17_rng_function_of_triple mk 0 nChains i (by decide) hi hin).1
+
+/-- **Regression (S5-C17, not a clause):** with `if not seed: seed = None`, seed 0 is replaced by fresh OS entropy: the same
+    triple (0, 2, 0) gives different generators in two runs (entropy 11 vs 12), neither the one of seed 0. -/
+theorem C17_S5_seed_falsy_counterexample :
+    (chainSeedFalsy 11 0 2 0).toOption ≠ (chainSeedFalsy 12 0 2 0).toOption ∧
+    (chainSeedFalsy 11 0 2 0).toOption ≠ (chainSeed 0 2 0).toOption ∧
+    (chainSeed 0 2 0).toOption = some { entropy := 0, spawnKey := [0] } ∧
+    (chainSeedFalsy 11 5 2 0).toOption = (chainSeed 5 2 0).toOption := by
+  decide
 
 /-! ### VI branch -/
 
